@@ -232,9 +232,55 @@ def guarded_sub(b, bi, rv):
     return False
 
 
+def j_counter(b, bi):
+    """`n + 1` on a 64-bit-or-wider counter that starts at the constant 0 and is only ever incremented by this very
+    addition, inside a loop that advances a finite std iterator: at most one increment per element of an in-memory
+    collection, so it cannot reach 2^64."""
+    add = None
+    for s in b.blocks[bi]["stmts"]:
+        if s["k"] == "Assign" and s["rv"]["k"] == "BinaryOp" and s["rv"]["op"] in ("AddWithOverflow", "Add") and re.match(r"^(u64|usize|u128|i64|i128)$", s["rv"].get("opty") or ""):
+            add = s
+    if add is None:
+        return None
+    rv = add["rv"]
+    one = rv["b"]["k"] == "Const" and str(rv["b"]["const"].get("int")) == "1"
+    if not one or rv["a"]["k"] not in ("Copy", "Move") or rv["a"]["place"]["proj"]:
+        return None
+    # the counter variable: follow single-definition copies
+    l = rv["a"]["place"]["local"]
+    for _ in range(4):
+        ds = b.defs().get(l, [])
+        if len(ds) == 1 and ds[0][0] == "stmt" and ds[0][3]["k"] == "Use" and ds[0][3]["op"]["k"] in ("Copy", "Move") and not ds[0][3]["op"]["place"]["proj"]:
+            l = ds[0][3]["op"]["place"]["local"]
+        else:
+            break
+    ds = b.defs().get(l, [])
+    if not ds or any(d[0] != "stmt" for d in ds):
+        return None
+    tmp = add["place"]["local"]
+    inits, incs, other = 0, 0, 0
+    for d in ds:
+        r = d[3]
+        if r["k"] == "Use" and r["op"]["k"] == "Const" and str(r["op"]["const"].get("int")) == "0":
+            inits += 1
+        elif r["k"] == "Use" and r["op"]["k"] in ("Copy", "Move") and r["op"]["place"]["local"] == tmp:
+            incs += 1
+        else:
+            other += 1
+    if inits < 1 or incs != 1 or other:
+        return None
+    for (h, blocks, srcs) in loops_of(b):
+        if bi in blocks and loop_bounded(b, h, blocks, srcs):
+            return "J4 counter: starts at 0, incremented only here by 1, at most once per iteration of a loop over a finite std iterator — cannot reach 2^64"
+    return None
+
+
 def j_assert(facts, b, bi, t):
     msg = t["msg"]
     if msg == "Overflow":
+        j = j_counter(b, bi)
+        if j:
+            return j
         for s in b.blocks[bi]["stmts"]:
             if s["k"] == "Assign" and s["rv"]["k"] == "BinaryOp" and s["rv"]["op"].startswith("Sub") and re.match(r"^u(8|16|32|64|128|size)$", s["rv"].get("opty") or ""):
                 if guarded_sub(b, bi, s["rv"]):
